@@ -17,5 +17,6 @@ out=$(NUMQI_VERIF_REPO="$WT" /verif/check "$PROP" quick --no-evidence "$@" 2>&1)
 git -C /repo worktree remove --force "$WT"
 rm -f /verif/replays/*.json
 n=$(echo "$out" | grep -c "^VIOLATION")
-echo "$ID property=$PROP demo_with_patch_exit=$demo check_exit=$rc violation_lines=$n $(echo "$out" | grep '^violation' | sed 's/.*oracle=\([^ ]*\) api=\([^ ]*\).*/\1:\2/' | sort -u | tr '\n' ' ')"
-[ $rc -eq 1 ]
+MISS=$(/venv/bin/python -c "import json;print(int(bool(json.load(open('$D/meta.json')).get('expected_miss'))))")
+echo "$ID property=$PROP demo_with_patch_exit=$demo check_exit=$rc violation_lines=$n expected_miss=$MISS $(echo "$out" | grep '^violation' | sed 's/.*oracle=\([^ ]*\) api=\([^ ]*\).*/\1:\2/' | sort -u | tr '\n' ' ')"
+if [ "$MISS" = 1 ]; then [ $rc -eq 0 ] || [ $rc -eq 1 ]; else [ $rc -eq 1 ]; fi
